@@ -502,6 +502,12 @@ def near_misses(p, limits=()):
         put(f"del@{i}", p[:i] + p[i + 1 :])
         ins = b"x" if isb else "x"
         put(f"ins@{i}", p[:i] + ins + p[i:])
+    # blanks and control characters inserted at the start, in the middle and at the end (formats that ignore SOME
+    # blanks -- mysql323: space and tab -- must not ignore the others); line feed first: it is the reduced set's pick
+    for wsb in (b"\n", b"\t", b"\r", b"\x0b", b"\x0c", b"\x1f", b"\x7f", b"\xa0"):
+        ws = wsb if isb else wsb.decode("latin-1")
+        for where, i in (("start", 0), ("mid", n // 2), ("end", n)):
+            put(f"ws{wsb[0]:02x}_{where}@{i}", p[:i] + ws + p[i:])
     put("drop_last", p[:-1])
     put("append_x", p + (b"x" if isb else "x"))
     put("append_blank", p + (b" " if isb else " "))
